@@ -1425,37 +1425,45 @@ theorem addTemplateDirSorted_listing_invariant {l₁ l₂ : List Tpl} (h : l₁.
 
 /-! ## hunter round -/
 
-/-! ### extension load order.  Full statement — FALSE of the code:
+/-! ### extension load order (sorted since /repo 2786e75) -/
 
-    theorem getExtensions_listing_invariant {l₁ l₂} (h : l₁.Perm l₂) : getExtensions l₁ = getExtensions l₂
+/-- **The order in which the built-in extensions are loaded does not depend on how the file system lists
+pydoctor/extensions/** — full statement (names of one directory are distinct) -/
+theorem getExtensions_listing_invariant {l₁ l₂ : List (Name × Bool)} (h : l₁.Perm l₂)
+    (hdistinct : ∀ a ∈ l₁, ∀ b ∈ l₁, a.1 = b.1 → a = b) : getExtensions l₁ = getExtensions l₂ := by
+  unfold getExtensions
+  rw [sortedWith_perm_invariant lexLe_isOrder (·.1) h hdistinct]
 
-the built-in extensions are loaded in the order the file system lists pydoctor/extensions/. -/
+/-- the same statement under the name it had while it described the proposed repair -/
+theorem getExtensionsSorted_listing_invariant {l₁ l₂ : List (Name × Bool)} (h : l₁.Perm l₂)
+    (hdistinct : ∀ a ∈ l₁, ∀ b ∈ l₁, a.1 = b.1 → a = b) : getExtensions l₁ = getExtensions l₂ :=
+  getExtensions_listing_invariant h hdistinct
 
 def extListing₁ : List (Name × Bool) := [([97, 46, 112, 121], true), ([122, 46, 112, 121], true)]      -- a.py, z.py
 def extListing₂ : List (Name × Bool) := [([122, 46, 112, 121], true), ([97, 46, 112, 121], true)]
 
-/-- two extension modules, the two listing orders, two load orders -/
-theorem getExtensions_listing_counterexample :
-    extListing₁.Perm extListing₂ ∧ getExtensions extListing₁ = [[97], [122]] ∧ getExtensions extListing₂ = [[122], [97]] :=
+example : getExtensions extListing₁ = getExtensions extListing₂ :=
+  getExtensions_listing_invariant (List.Perm.swap _ _ _) (by
+    intro a ha b hb
+    simp only [extListing₁, List.mem_cons, List.not_mem_nil, or_false] at ha hb
+    rcases ha with rfl | rfl <;> rcases hb with rfl | rfl <;> simp)
+
+/-- HISTORICAL (code before 2786e75, unsorted walk): two extension modules, the two listing orders, two load orders -/
+theorem getExtensions_listing_counterexample_old :
+    extListing₁.Perm extListing₂ ∧ getExtensionsOld extListing₁ = [[97], [122]] ∧ getExtensionsOld extListing₂ = [[122], [97]] :=
   ⟨List.Perm.swap _ _ _, by decide, by decide⟩
 
-/-- what holds of the code: at most one extension module in the directory -/
-theorem getExtensions_listing_invariant_partial {l₁ l₂ : List (Name × Bool)} (h : l₁.Perm l₂)
-    (hone : (getExtensions l₁).length ≤ 1) : getExtensions l₁ = getExtensions l₂ := by
-  have hp : (getExtensions l₁).Perm (getExtensions l₂) := by
-    unfold getExtensions
+/-- HISTORICAL: what held of the unsorted walk — at most one extension module in the directory -/
+theorem getExtensionsOld_listing_invariant_partial {l₁ l₂ : List (Name × Bool)} (h : l₁.Perm l₂)
+    (hone : (getExtensionsOld l₁).length ≤ 1) : getExtensionsOld l₁ = getExtensionsOld l₂ := by
+  have hp : (getExtensionsOld l₁).Perm (getExtensionsOld l₂) := by
+    unfold getExtensionsOld
     exact h.filterMap _
-  match hg : getExtensions l₁, hone, hp with
+  match hg : getExtensionsOld l₁, hone, hp with
   | [], _, hp => exact (List.nil_perm.mp hp).symm
   | [x], _, hp => exact List.singleton_perm.mp hp
 
-/-- with the proposed repair (sorted listing) the full statement holds: names of one directory are distinct -/
-theorem getExtensionsSorted_listing_invariant {l₁ l₂ : List (Name × Bool)} (h : l₁.Perm l₂)
-    (hdistinct : ∀ a ∈ l₁, ∀ b ∈ l₁, a.1 = b.1 → a = b) : getExtensionsSorted l₁ = getExtensionsSorted l₂ := by
-  unfold getExtensionsSorted
-  rw [sortedWith_perm_invariant lexLe_isOrder (·.1) h hdistinct]
-
-/-- the load order matters: two visitor extensions that both assign the kind of one assignment (attrs:
+/-- why the load order has to be fixed: two visitor extensions that both assign the kind of one assignment (attrs:
 INSTANCE_VARIABLE = 200, zopeinterface: ATTRIBUTE = 210) — the last loaded wins -/
 theorem kindAfterVisitors_order_counterexample :
     kindAfterVisitors 300 [some 200, some 210] = 210 ∧ kindAfterVisitors 300 [some 210, some 200] = 200 := by
@@ -1481,23 +1489,28 @@ theorem kindAfterVisitors_single_claim (initial : Nat) (pre post : List (Option 
   | none => exact hnone post initial hpost
   | some k => exact hnone post k hpost
 
-/-! ### repr of a live set.  Full statement — FALSE of the code:
+/-! ### repr of a live set (elements sorted since /repo 828eb1f) -/
 
-    theorem setRepr_invariant {l₁ l₂} (h : l₁.Perm l₂) : setRepr l₁ = setRepr l₂ -/
+/-- **The text of a set default of an introspected signature does not depend on the enumeration of the set** — full -/
+theorem setRepr_invariant {l₁ l₂ : List Name} (h : l₁.Perm l₂) : setRepr l₁ = setRepr l₂ := by
+  unfold setRepr
+  rw [sort_perm_invariant h]
 
-theorem setRepr_invariant_partial {l₁ l₂ : List Name} (h : l₁.Perm l₂) (hone : l₁.length ≤ 1) :
-    setRepr l₁ = setRepr l₂ := by
+/-- the same statement under the name it had while it described the proposed repair -/
+theorem setReprSorted_invariant {l₁ l₂ : List Name} (h : l₁.Perm l₂) : setRepr l₁ = setRepr l₂ := setRepr_invariant h
+
+example : setRepr [[39, 97, 39], [39, 98, 39]] = setRepr [[39, 98, 39], [39, 97, 39]] := setRepr_invariant (List.Perm.swap _ _ _)
+
+/-- HISTORICAL (code before 828eb1f, plain repr): what held — sets of at most one element -/
+theorem setReprOld_invariant_partial {l₁ l₂ : List Name} (h : l₁.Perm l₂) (hone : l₁.length ≤ 1) :
+    setReprOld l₁ = setReprOld l₂ := by
   match l₁, hone, h with
   | [], _, h => rw [List.nil_perm.mp h]
   | [x], _, h => rw [(List.singleton_perm.mp h).symm]
 
-/-- `{'a', 'b'}` enumerated as a, b and as b, a -/
-theorem setRepr_counterexample :
-    setRepr [[39, 97, 39], [39, 98, 39]] ≠ setRepr [[39, 98, 39], [39, 97, 39]] := by decide
-
-theorem setReprSorted_invariant {l₁ l₂ : List Name} (h : l₁.Perm l₂) : setReprSorted l₁ = setReprSorted l₂ := by
-  unfold setReprSorted
-  rw [sort_perm_invariant h]
+/-- HISTORICAL: `{'a', 'b'}` enumerated as a, b and as b, a -/
+theorem setRepr_counterexample_old :
+    setReprOld [[39, 97, 39], [39, 98, 39]] ≠ setReprOld [[39, 98, 39], [39, 97, 39]] := by decide
 
 /-! ### the docutils `date` directive.  Full statement — FALSE of the code:
 
